@@ -123,7 +123,7 @@ func c08Run(c *fw.Case, kind string, sync bool, k int, offline bool) {
 	c.Class(fmt.Sprintf("%s sync=%v offline=%v", kind, sync, offline))
 	c.Distinct("placement", fmt.Sprintf("%s/%v/%v/%d", kind, sync, offline, k))
 	c.Count("probed_calls", 1)
-	if call.Returned {
+	if call.HasReturned() {
 		c.Count("probed_calls_answered", 1)
 	}
 }
